@@ -47,6 +47,7 @@ type Auth struct {
 	CSRFName   string
 	Slug       string
 	Inner      providers.Provider // the concrete provider (GoogleProvider / OktaProvider)
+	GroupCache *providers.GroupCache // the answer cache in front of it (okta), nil otherwise
 }
 
 // AuthCodeSecret is the default key sealing authorization codes.
@@ -136,6 +137,7 @@ func NewAuth(o AuthOpts, idp *FakeIdP) (*Auth, error) {
 		case *providers.SingleFlightProvider:
 			inner = p.VerifInner()
 		case *providers.GroupCache:
+			a.GroupCache = p
 			inner = p.VerifInner()
 		}
 	}
